@@ -272,7 +272,7 @@ pub fn oracle_client(np: &NetPlan, o: &MuxOutcome) -> Vec<Violation> {
     let view = ConnView { abuse_streams: streams_to_refuse, ..view };
     if let Err(m) = check(&expect, &view) {
         // for input that must be accepted the undefined flag bit is part of the trigger
-        let k = if m.symptom == "valid_input_rejected" && ca.undefined_flag() { format!("{feature}+undefined_flag") } else { feature.to_string() };
+        let k = if m.symptom == "valid_input_rejected" && ca.undefined_flag() && !feature.ends_with("+undefined_flag") { format!("{feature}+undefined_flag") } else { feature.to_string() };
         v.push(Violation::new(&m.symptom, k, format!("{}: {} [expected {}]", ca.feature, m.detail, expect.short())));
     }
     // ---- release: whatever happened, sozu must have let go of the connection by the end of the linger
@@ -343,7 +343,7 @@ pub fn oracle_client(np: &NetPlan, o: &MuxOutcome) -> Vec<Violation> {
     }
     // a well-formed request sent as a raw HEADERS frame on a fresh stream is an ordinary request
     if let Kind::Frame { ty: 1, cls: StreamClass::Fresh, tag: Tag::ValidRequest, flags, .. } = &ca.kind {
-        if flags & 5 == 5 && clean && ca.phase == Phase::Established {
+        if flags & 5 == 5 && clean && ca.phase == Phase::Established && !ca.drain {
             if let Some(s) = abuse_streams.last() { if s.status != Some(200) || s.sim_id != Some(ID_ABUSE) { v.push(Violation::new("valid_input_rejected", format!("request|{feature}"), format!("well-formed request on a new stream: status {:?} sim_id {:?} rst {:?}", s.status, s.sim_id, s.recv_rst.map(ecode_name)))); } }
         }
     }
